@@ -1,5 +1,7 @@
 package an
 
+import "strings"
+
 func init() {
 	register(&PropInfo{ID: "C19", Run: runC19,
 		Explanation: "option contract: E10c capacity guards of option-fed channels, E10d resize arms, option switch shape (comma-ok assertions, ErrBadValue/ErrBadOption edges), Set/Get symmetry, ranges against the option table, unsupported operations return ErrProtoOp.",
@@ -18,4 +20,20 @@ func runC19(p *Prog, r *Report) {
 	r.Describe("C19.5/E10d", "queue resize never disconnects a peer: the select arm on a resize-notify channel leads back to the loop head")
 	e10ResizeArms(p, r, "C19.5/E10d")
 	r.Floor("C19.5/E10d", "e10.resize_arms", 20)
+	c19Shape(p, r)
+	c19Ranges(p, r)
+	c19Symmetry(p, r)
+	c19Inheritance(p, r)
+	c19Unsupported(p, r)
+	// zero duration = no limit: timers armed from an option duration are guarded by > 0
+	r.Describe("C19.7/zero-means-no-limit", "a timer armed from an option duration whose zero value is documented as 'no limit' is guarded by > 0 (deadline selects: C18.1; survey time: C07.7; retry time: C04.3)")
+	q := NewQ(p, r)
+	if st := q.Fn("C19.7/zero-means-no-limit", "protocol/surveyor", "survey", "start"); st.OK() {
+		af := st.Ev("call", "time.AfterFunc")
+		r.Check(len(af) == 1 && af.AllGuarded("arg2 > 0"), "C19.7/zero-means-no-limit", "surveyor/survey-time", af.Pos(p), "expiry armed only for a positive survey time", "SURVEY-TIME 0 (documented: infinite) arms AfterFunc(0) and expires the survey at once")
+	}
+	if sd := q.Fn("C19.7/zero-means-no-limit", "protocol/req", "socket", "send"); sd.OK() {
+		af := sd.Ev("call", "time.AfterFunc")
+		r.Check(len(af) == 1 && strings.HasSuffix(af[0].Args[0], ".resendTime") && af.AllGuarded(af[0].Args[0]+" > 0"), "C19.7/zero-means-no-limit", "req/retry-time", af.Pos(p), "retry armed only for a positive retry time", "RETRY-TIME 0 arms a retry timer")
+	}
 }
